@@ -347,7 +347,7 @@ func (p *Preprocessor) canonicalizeConditional(graph *cfg.CFG, thisBlock *cfg.Bl
 		// Standardize binary expressions to be of the form `expr OP literal` by swapping `x` and `y`, if `x` is a literal.
 		// For example, standardizes `nil == v` to the `v == nil` form
 		x, y := cond.X, cond.Y
-		if asthelper.IsLiteral(x, "nil", "true", "false") {
+		if p.isPredeclared(x, "nil", "true", "false") {
 			newCond := &ast.BinaryExpr{
 				// Swap X and Y
 				X:     y,
@@ -395,9 +395,9 @@ func (p *Preprocessor) canonicalizeConditional(graph *cfg.CFG, thisBlock *cfg.Bl
 
 			// For explicit boolean NEQ checks, we replace the AST nodes for `ok != true` and `ok != false`
 			// (also, `true != ok` and `false != ok`) with `ok` and `!ok` form for the true and false cases, respectively.
-			if asthelper.IsLiteral(y, "false") {
+			if p.isPredeclared(y, "false") {
 				replaceCond(x) // replaces `ok != false` with `ok`
-			} else if asthelper.IsLiteral(y, "true") {
+			} else if p.isPredeclared(y, "true") {
 				newCond := &ast.UnaryExpr{
 					OpPos: y.Pos(),
 					Op:    token.NOT,
@@ -410,9 +410,9 @@ func (p *Preprocessor) canonicalizeConditional(graph *cfg.CFG, thisBlock *cfg.Bl
 		case token.EQL:
 			// For explicit boolean EQL checks, we replace the AST nodes for `ok == true` and `ok == false`
 			// (also, `true == ok` and `false == ok`) with `ok` and `!ok` form for the true and false cases, respectively.
-			if asthelper.IsLiteral(y, "true") {
+			if p.isPredeclared(y, "true") {
 				replaceCond(x) // replaces `ok == true` with `ok`
-			} else if asthelper.IsLiteral(y, "false") {
+			} else if p.isPredeclared(y, "false") {
 				newCond := &ast.UnaryExpr{
 					OpPos: y.Pos(),
 					Op:    token.NOT,
@@ -423,6 +423,19 @@ func (p *Preprocessor) canonicalizeConditional(graph *cfg.CFG, thisBlock *cfg.Bl
 			}
 		}
 	}
+}
+
+// isPredeclared reports whether `expr` is an identifier with one of the given names (e.g., "nil", "true", "false")
+// that denotes the predeclared object of that name, rather than a user declaration shadowing it (e.g.,
+// `const true = 1` or `var false = 1 == 1`, for which exchanging the operands of an ordered comparison or rewriting
+// `x == false` to `!x` would change the meaning of the condition). Identifiers that are absent from the type
+// information (the fake identifiers we synthesize during preprocessing) are matched by name.
+func (p *Preprocessor) isPredeclared(expr ast.Expr, names ...string) bool {
+	if !asthelper.IsLiteral(expr, names...) {
+		return false
+	}
+	obj := p.pass.TypesInfo.Uses[expr.(*ast.Ident)]
+	return obj == nil || obj.Parent() == types.Universe
 }
 
 // collectChildren establishes the links between the range / switch / type switch statement nodes
